@@ -28,7 +28,9 @@ ENVS = {
 }
 
 NONASCII = ["x = 'é€'\n", "é = 1\n", "# commentaire é\nx = 1\n", "s = '''日本\n語'''\n", "f(λ='ß')\n", "x = 'é' 1\n", "x = ('é',\n", "$É = 'ü'\n", "$(echo é ü)\n", "x = p'/tmp/é'\n",
-            "with! é:\n    ü ö\n", "f!(é, ü)\n", "x = f'{é}ü'\n", "def é(): return 'é\n", "x = 'ü\n", "if é:\n  a\n b\n", "x = '\\N{BULLET}•'\n", "'''é\n", "x = [é,\n  ü€]\n"]
+            "with! é:\n    ü ö\n", "f!(é, ü)\n", "x = f'{é}ü'\n", "def é(): return 'é\n", "x = 'ü\n", "if é:\n  a\n b\n", "x = '\\N{BULLET}•'\n", "'''é\n", "x = [é,\n  ü€]\n",
+            # files that start with a UTF-8 byte order mark
+            "\ufeffx = 1\n", "\ufeffx = (1,\n 2 3)\n", "\ufeff", "\ufeff# c\nif a:\n  b\n c\n", "\ufeffé = f'{é=}'\n"]
 
 
 def contents(rnd, n):
@@ -117,7 +119,7 @@ def run_shard(shard):
             continue
         for name, enc in c["opened"]:
             acc.seen("encodings_of_opened_files", str(enc).lower())
-            if str(enc).lower().replace("_", "-") not in ("utf-8", "utf8"):
+            if str(enc).lower().replace("_", "-") not in ("utf-8", "utf8", "utf-8-sig"):
                 acc.violation("source-file-not-read-as-utf8", case, {"file": name, "encoding": enc})
         if not c["opened"]:
             acc.count("spy_saw_no_open")
